@@ -14,7 +14,8 @@ RULE = ("scenario = one Buffer (random memory/maximum thresholds, retry expressi
         "per attempt (reads none/part/all of the body, mutates headers and URL of its copy); non-trivial = a non-empty body seen by >= 2 attempts "
         "or a body at/above the memory threshold")
 ASSUMPTIONS = ["declared Content-Length equals the body actually sent (a real net/http client)",
-               "the handler script does not change the Method field of its request copy; header/URL isolation between attempts is by construction in the pure model (copyRequest = fresh value) and tied to the code only by the correspondence runs with mutating handlers",
+               "the handler script does not change the Method field of its request copy",
+               "store model of sharing: an Add (append) by the handler is a new backing array (an append into spare capacity is invisible through other slice headers); which levels copyRequest allocates fresh (URL object, map, every value slice) is read off utils.CopyURL / CopyHeaders and validated by the correspondence runs with in-place mutating handlers",
                "net/http server/client framing (chunked decoding, Content-Length) is the real stdlib, not modelled",
                "body lengths fit in Go int64"]
 TRUSTED = ["multibuf.New / multiReaderSeek modelled (memory/max clamping, spill, maxReader), validated by correspondence, not verified"]
@@ -47,6 +48,6 @@ MANIFEST = {
              "request's bytes from offset 0 (its read prefix), ContentLength = body length, empty TransferEncoding, and the same method/URL/headers. "
              "The model is tied to the code by differential runs of the real Buffer behind a real HTTP server against the compiled model."),
     "note": ("Trusted: Lean kernel; propext/Classical.choice/Quot.sound; hand-written model validated only on generated scenarios; "
-             "header/URL isolation is structural in the pure model, checked against the code by mutating handlers in the correspondence; stdlib framing not modelled."),
-    "technique": "Lean 4 proof (loop invariant: reader offset 0 at every attempt entry) over executable model + differential correspondence with buffer.Buffer over real HTTP",
+             "header/URL isolation is proved over an explicit store (fresh URL object, map and value slices per copy; handler writes through its references), the allocation structure itself is validated against the code by in-place mutating handlers in the correspondence; stdlib framing not modelled."),
+    "technique": "Lean 4 proof (loop invariants: reader offset 0 at every attempt entry; frame invariant of the reference store across handler writes) over executable model + differential correspondence with buffer.Buffer over real HTTP",
 }
